@@ -1049,6 +1049,9 @@ def _run_path(it, func_node, body, conds):
                 if isinstance(v, ast.List) and not v.elts:
                     env[tg.id] = ('build',)
                     continue
+                if O.const_of(v) is not None:
+                    env[tg.id] = ('c', O.const_of(v)[1])        # a scalar start value of a running reduction
+                    continue
                 if isinstance(v, ast.Call) and (ast.unparse(v.func).endswith('deque')):
                     M = None
                     for kw in v.keywords:
@@ -1095,7 +1098,8 @@ def _run_path(it, func_node, body, conds):
         if isinstance(st, ast.Return):
             v = st.value
             if isinstance(v, ast.Name) and v.id == result_name:
-                out_cases.append(([], canonical(out)))
+                # one value per iteration of the sample loop: position t ranges over the trace
+                out_cases.append(([Aff.sym('t'), Aff.sym('n') - Aff.const(1) - Aff.sym('t')], canonical(out)))
                 break
             seq = None
             n = Aff.sym('n')
@@ -1188,6 +1192,11 @@ def _comprehension(it, v, env):
 def _outer_loop(it, st, env):
     """for i in range(len(X)) / descending: ring buffers receive x[i]; an output value is appended per iteration"""
     rng = it.range_of(st.iter, env)
+    elem_of = None
+    if rng is None and isinstance(st.iter, ast.Name) and isinstance(env.get(st.iter.id), Seq) and isinstance(st.target, ast.Name):
+        # for x in S:   ==   for t in range(len(S)): x = S[t]
+        elem_of = env[st.iter.id]
+        rng = (Aff.const(0), elem_of.length - Aff.const(1), +1)
     if rng is None:
         # prefill loop: for i in range(M): buffer.append(const)
         raise Unknown('outer loop %s' % ast.unparse(st.iter)[:40])
@@ -1215,11 +1224,26 @@ def _outer_loop(it, st, env):
         raise Unknown('sample loop does not run over all samples: [%r .. %r]' % (lo, hi))
     t = Aff.sym('t')
     e2 = dict(env)
-    e2[st.target.id] = t
+    e2[st.target.id] = t if elem_of is None else elem_of.elem(t)
     e2['#facts'] = [t, n - Aff.const(1) - t]
     out = None
     result = None
     for s in st.body:
+        # running reduction carried by the loop:  acc = max(x_t, acc)  with acc a constant before the loop (ascending loops only)
+        if isinstance(s, ast.Assign) and len(s.targets) == 1 and isinstance(s.targets[0], ast.Name) and isinstance(s.value, ast.Call) \
+                and isinstance(s.value.func, ast.Name) and s.value.func.id in ('min', 'max') and len(s.value.args) == 2 \
+                and any(isinstance(a, ast.Name) and a.id == s.targets[0].id for a in s.value.args):
+            acc = s.targets[0].id
+            init = env.get(acc)
+            other = [a for a in s.value.args if not (isinstance(a, ast.Name) and a.id == acc)]
+            if isinstance(init, tuple) and init and init[0] == 'c' and len(other) == 1 and direction > 0:
+                op = s.value.func.id
+                body_t = it.term(other[0], e2)
+                v = it.newvar('i')
+                red = ('red', op, v, Aff.const(0), t, t_subst(body_t, 't', Aff.sym(v)))
+                e2[acc] = red if init == NEUTRAL[op] else mk(op, [init, red])
+                continue
+            raise Unknown('loop-carried value %s' % ast.unparse(s)[:50])
         if isinstance(s, ast.Expr) and isinstance(s.value, ast.Call) and isinstance(s.value.func, ast.Attribute) and s.value.func.attr == 'append':
             tgt = ast.unparse(s.value.func.value)
             dv = e2.get(tgt)
